@@ -816,6 +816,10 @@ def compare(sctx, pctx, s, p, diff, ptr="", flags=frozenset(), skip=frozenset(),
                 diff.add("dropped", k, ptr, v, None, flags)
             elif not json_eq(v, p[k]):
                 diff.add("altered", k, ptr, v, p[k], flags)
+        elif k == "const" and "const" not in p and "enum" in p:
+            # known syntactic mapping: OpenAPI 3.0 has no `const`; a one-value enum says the same
+            if not (len(p["enum"]) == 1 and json_eq(v, p["enum"][0])):
+                diff.add("altered", k, ptr, v, {"enum": p["enum"]}, flags)
         elif k in SIMPLE_CONSTRAINTS:
             if k not in p:
                 diff.add("dropped", k, ptr, v, None, flags)
@@ -891,6 +895,8 @@ def compare(sctx, pctx, s, p, diff, ptr="", flags=frozenset(), skip=frozenset(),
             if k == "exclusiveMinimum" and "minimum" in p and lower_bound(s) is not None:
                 continue
             if k == "exclusiveMaximum" and "maximum" in p and upper_bound(s) is not None:
+                continue
+            if k == "enum" and "const" in s:
                 continue
             if k == "minimum" and "exclusiveMinimum" in s:
                 continue
